@@ -98,3 +98,29 @@ impl RawRecordsS {
 // header.key().into()
 #[verifier::external_body]
 pub fn key_from_header(h: &RecordHeader) -> (r: KeyT) ensures r@ == h.key@ { unimplemented!() }
+
+// ---- metadata lookup (C02) ----
+impl Meta { pub uninterp spec fn mv(&self) -> MetaV; }
+impl Entry {
+    pub uninterp spec fn hdr(&self) -> RecordHeader;
+    // `Some(meta) == entry.load_meta().await?`: reads the stored metadata of the entry (may fail)
+    #[verifier::external_body]
+    pub fn load_meta_matches(&mut self, meta: &Meta) -> (r: Result<bool, VErr>)
+        ensures final(self).hdr() == old(self).hdr(), final(self).stored_meta() == old(self).stored_meta(),
+            r.is_ok() ==> r->Ok_0 == (old(self).stored_meta() == Some(meta.mv()))
+    { unimplemented!() }
+}
+// Blob::headers_to_entries: one Entry per header, same order
+#[verifier::external_body]
+pub fn headers_to_entries(headers: Vec<RecordHeader>, file: &File, name: &()) -> (r: Vec<Entry>)
+    ensures r@.len() == headers@.len(), forall|i: int| 0 <= i < r@.len() ==> (#[trigger] r@[i]).hdr() == headers@[i]
+        && r@[i].stored_meta() == hdr_meta(*file, headers@[i])
+{ unimplemented!() }
+// the metadata stored in the blob file for the record with this header (None: unreadable)
+pub uninterp spec fn hdr_meta(f: File, h: RecordHeader) -> Option<MetaV>;
+// Vec<Entry> by-value iteration element
+#[verifier::external_body]
+pub fn take_entry(v: &Vec<Entry>, i: usize) -> (r: Entry)
+    requires i < v@.len()
+    ensures r == v@[i as int]
+{ unimplemented!() }
